@@ -284,6 +284,10 @@ static ares_bool_t ares_addr_equal(const struct ares_addr *addr1,
         return ARES_TRUE;
       }
       break;
+    case AF_UNSPEC:
+      /* The local address of the connection isn't known (socket functions
+       * without getsockname), so it can't be seen to have changed either. */
+      return ARES_TRUE;
     default:
       break; /* LCOV_EXCL_LINE */
   }
@@ -400,7 +404,12 @@ ares_status_t ares_cookie_validate(ares_query_t            *query,
     return ARES_EBADRESP;
   }
 
-  if (resp_cookie && resp_cookie_len > 8) {
+  /* A reply to a request sent before the cookie state was reset (state is
+   * INITIAL or UNSUPPORTED again) must not move us to SUPPORTED: there is no
+   * client cookie on file that state could refer to. */
+  if (resp_cookie && resp_cookie_len > 8 &&
+      (cookie->state == ARES_COOKIE_GENERATED ||
+       cookie->state == ARES_COOKIE_SUPPORTED)) {
     /* Make sure we record that we successfully received a cookie response */
     cookie->state = ARES_COOKIE_SUPPORTED;
     memset(&cookie->unsupported_ts, 0, sizeof(cookie->unsupported_ts));
